@@ -150,7 +150,10 @@ def checkFrechet (c : Ctx) (name : String) (n : Nat) (A B : IGeom) (v : String) 
   match frechet2 ps qs, dyad v with
   | some f2, some d =>
     let r := R.mul (R.ofDyadic c.e0 d) ⟨k, 1⟩
-    if closeExact r (Q.ofInt f2) then [] else [name]
+    -- vertex-to-vertex distances are exact differences; densified points are *computed* points (p0 + j·((p1−p0)/n)),
+    -- off by an ulp of the coordinate, so they get the absolute slack computed points get elsewhere
+    let good := if n ≤ 1 then closeExact r (Q.ofInt f2) else closeAbs r (sqrtR (Q.ofInt f2)) ⟨c.m * k, pow2 44⟩
+    if good then [] else [name]
   | _, _ => [name ++ "-undefined"]
 
 partial def checks (c : Ctx) : List String → List String
